@@ -10,7 +10,7 @@ if ! git -C /repo apply --check "$sd/patch.diff" 2>/dev/null; then echo "$sd: pa
 git -C /repo apply "$sd/patch.diff"
 trap 'git -C /repo checkout -- . ' EXIT
 for p in $props; do
-  out=$(VERIF_EVIDENCE_DIR=/tmp/seedcheck_ev ./check $p 2>&1); rc=$?
+  out=$(VERIF_EVIDENCE_DIR=/root/scratch/seedcheck_ev ./check $p 2>&1); rc=$?
   echo "seed=$(basename $sd) check=$p rc=$rc"
   [ -n "$VERBOSE" ] && echo "$out" | grep -v '^VIOLATION' | head -${VERBOSE}
 done
